@@ -52,7 +52,9 @@ CF_New == <<NC("c", I(4), <<<<"W", I(4)>>>>),                       \* exactly f
             NC("c", I(4), <<<<"W", I(3)>>, <<"N", R(1, 2)>>>>),     \* one half too much
             NC("c", I(4), <<<<"W", I(1)>>, <<"E", I(2)>>>>),
             NC("c", Inf, <<<<"N", I(1)>>, <<"E", I(1)>>, <<"D", R(1, 2)>>>>),
-            NC("c", I(2), <<>>)>>
+            NC("c", I(2), <<>>),
+            NC("c", I(4), <<<<"W", I(2)>>, <<"N", R(-1, 2)>>>>),    \* a negative quantity
+            NC("c", Inf, <<<<"D", I(-1)>>>>)>>
 
 (***************************************************************************)
 (* PL: a container source, a container destination and a 2x2 plate seeded  *)
@@ -157,4 +159,24 @@ SOL_From(quick) ==
   \cup {FR("v", "N", "W", R(1, 2), I(2), "mol", "L", "L")}     \* the source does not contain the solute
 SOL_FromQuick == SOL_From(TRUE)
 SOL_FromFull == SOL_From(FALSE)
+
+(***************************************************************************)
+(* DUP: two DIFFERENT plates that carry the same display name (replicates, *)
+(* or an older and a newer version of one plate).  The harness strips the  *)
+(* suffix "_dup" when it names the object: vessel p_dup is a second Plate  *)
+(* object named 'p'.  Values are told apart by identity, never by name.    *)
+(***************************************************************************)
+DUP_Names == {"s", "p", "p_dup"}
+DUP_Shape == [s |-> <<0, 0>>, p |-> <<2, 2>>, p_dup |-> <<2, 2>>]
+DUP_Init == {[s |-> Cont(Inf, C4(I(8), Zero, I(2), I(2))),
+              p |-> [cap |-> I(10), w |-> <<MkWell(C4(I(4), Zero, Zero, Zero)), MkWell(C4(I(2), I(1), Zero, Zero)),
+                                             MkWell(C4(Zero, Zero, I(1), I(2))), MkWell(Empty)>>],
+              p_dup |-> [cap |-> I(10), w |-> <<MkWell(C4(I(1), Zero, I(1), Zero)), MkWell(Empty),
+                                                 MkWell(C4(I(3), Zero, Zero, Zero)), MkWell(C4(Zero, I(2), Zero, I(1)))>>]]}
+DUP_Forms == <<F4("p", "row1", "p_dup", "row2"), F4("p_dup", "A1", "p", "all"), F4("p", "all", "p_dup", "all"),
+               F4("p_dup", "col1", "p", "col2"), F4("p", "plate", "p_dup", "plate"), F4("p_dup", "row2", "p", "B2"),
+               F4("s", "-", "p_dup", "row1"), F4("p_dup", "col1", "s", "-"), F4("p", "A1", "p", "row2")>>
+DUP_Remove == <<RC("p_dup", "row1", "W"), RC("p", "plate", "liquid")>>
+DUP_Fill == <<FC("p_dup", "col2", "W", "L"), FC("p", "row1", "W", "L")>>
+
 =============================================================================
